@@ -71,28 +71,31 @@ Proof.
   { intros g g' a H1 H2. apply lookup_in_pair in H1. apply lookup_in_pair in H2. eapply nodup_snd_inj; eauto. }
   assert (Fok : forall j, j < length (pfuns p) -> fun_ok mt (pfuns p) gn gw j = true).
   { intros j Hj. rewrite forallb_forall in Hfuns. apply Hfuns. apply upto_in. auto. }
-  assert (HA : Ainv mt (pfuns p) ge gn gw gbase None gbase [] ge st).
+  set (stm := set_fbase st (length (vars st))).
+  assert (S1m : Sep [] stm) by (apply (Sep_perm [] [] st stm); auto).
+  assert (HA : Ainv mt (pfuns p) ge gn gw gbase None gbase [] ge stm).
   { constructor; [constructor|..].
     - intros x a Hx. destruct (Gnames _ _ Hx). auto.
     - intros x a Hx. destruct (Gnames _ _ Hx) as [Hm _]. unfold kind_of. rewrite Hm. exact Hx.
     - intros x y a Hx Hy Hb. destruct (Gnames _ _ Hx). lia.
-    - unfold gbase. split; lia.
+    - unfold gbase. cbn. split; lia.
     - intros x a _ _. split; intros [].
     - intros g a _ _. split; intros []. }
-  assert (He : env_ok ge ge st).
+  assert (He : env_ok ge ge stm).
   { split; [intros a Ha; apply L1; auto|apply incl_refl]. }
-  destruct (exec_sim mt (pfuns p) ge gn gw gbase Gnames Ginj Fok fuel None gbase [] ge (pmain p) st []
-              S1 T1 (Binv_nil st) HA He Hmain) as [Heq _].
-  rewrite patch_nil, lift0_nil in Heq. rewrite Heq. reflexivity.
+  destruct (exec_sim mt (pfuns p) ge gn gw gbase Gnames Ginj Fok fuel None gbase [] ge (pmain p) stm []
+              S1m T1 (Binv_nil stm) HA He Hmain) as [Heq _].
+  rewrite patch_nil, lift0_nil in Heq. change (set_fbase st gbase) with stm. rewrite Heq. reflexivity.
 Qed.
 
 (* non-vacuity: a program in which a copy IS elided (the first parameter of f is judged constant and
-   receives the variable t) and that satisfies the side condition *)
+   receives the main program's LOCAL variable 5, which is not passed by Referenz in the call: may_elide
+   holds) and that satisfies the side condition *)
 Definition ok_elided : program :=
-  mkProg [(0, ELit [97%Z; 98%Z]); (4, ELit [117%Z])]
+  mkProg [(4, ELit [117%Z])]
          [mkFun [mkParam 1 false; mkParam 2 true]
                 [SAssign 2 (ECat (EVar 2) (EVar 1)); SPrint (EVar 1)] None]
-         [SCall None 0 [AVal (EVar 0); ARef 4]; SPrint (EVar 0); SPrint (EVar 4)].
+         [SDecl 5 (ELit [97%Z; 98%Z]); SCall None 0 [AVal (EVar 5); ARef 4]; SPrint (EVar 5); SPrint (EVar 4)].
 
 Lemma ok_elided_facts :
   elide_safe ok_elided = true /\ analyse (pfuns ok_elided) = [[true; false]] /\
